@@ -143,12 +143,20 @@ class Scan:
                 if pol:
                     return self.implies(a, True, facts, depth) & self.implies(c, True, facts, depth)
                 return self.implies(a, False, facts, depth) | self.implies(c, False, facts, depth)
-        if k == "CallExpr" and depth < 2:
+        if k in ("CallExpr", "CXXMemberCallExpr") and depth < 2:
             cal = n.get("callee", "").split("::")[-1]
             args = call_args(n)
             if cal in ("isspace", "isalpha", "isdigit", "isalnum") and args:
                 bb = byte(args[0])
                 return {("nz",) + bb} if (bb and pol) else set()
+            # a one-line pure predicate of the code base (e.g. `static bool IsDigit(char c) { return c >= '0' && c <= '9'; }`)
+            from .cfg import _pure_predicate, _subst_params
+            g = getattr(self.F, "_by_id", {}).get(n.get("calleeId"))
+            if g is not None:
+                e = _pure_predicate(g)
+                if e is not None and len(args) == len(g.params):
+                    binding = {p["declId"]: strip(a) for p, a in zip(g.params, args)}
+                    return self.implies(_subst_params(strip(e), binding), pol, facts, depth + 1)
         return set()
 
     def edge_gen(self, cond, pol, facts):
